@@ -161,6 +161,17 @@ usage:
 	return table, nil
 }
 
+// foldASCII lowers the ASCII letters of a name, which is how SQLite compares
+// names.
+func foldASCII(name string) string {
+	return strings.Map(func(r rune) rune {
+		if 'A' <= r && r <= 'Z' {
+			return r + 'a' - 'A'
+		}
+		return r
+	}, name)
+}
+
 func convertSchema(s string, t *VirtualTable) error {
 	schema, err := parseSchema(s)
 	if err != nil {
@@ -172,25 +183,18 @@ func convertSchema(s string, t *VirtualTable) error {
 	// Everything SQLite would refuse when the table is declared is checked
 	// here, before the storage is opened: opening merges, and stores the
 	// merge of, whatever versions it finds.
-	columnMap := map[string]struct{}{}
-	folded := map[string]struct{}{}
+	folded := map[string]string{}
 	for i := range schema.Columns {
 		name := schema.Columns[i].Name
 		if !utf8.ValidString(name) {
 			return fmt.Errorf("column name is not valid UTF-8: %q", name)
 		}
 		// SQLite compares names without regard to (ASCII) case
-		lower := strings.Map(func(r rune) rune {
-			if 'A' <= r && r <= 'Z' {
-				return r + 'a' - 'A'
-			}
-			return r
-		}, name)
+		lower := foldASCII(name)
 		if _, ok := folded[lower]; ok {
 			return fmt.Errorf("duplicate column: %s", name)
 		}
-		folded[lower] = struct{}{}
-		columnMap[schema.Columns[i].Name] = struct{}{}
+		folded[lower] = name
 	}
 	if _, ok := folded["_rowid_"]; ok && len(schema.PrimaryKey) == 0 {
 		return fmt.Errorf("a table without primary key cannot have a column named _rowid_")
@@ -198,9 +202,11 @@ func convertSchema(s string, t *VirtualTable) error {
 	t.usesRowID = true
 	var keyColName string
 	if len(schema.PrimaryKey) > 0 {
-		keyColName = schema.PrimaryKey[0]
-		if _, ok := columnMap[schema.PrimaryKey[0]]; !ok {
-			return fmt.Errorf("no column definition for key: %s", keyColName)
+		// PRIMARY KEY(ID) names the column id, as it does for SQLite
+		var ok bool
+		keyColName, ok = folded[foldASCII(schema.PrimaryKey[0])]
+		if !ok {
+			return fmt.Errorf("no column definition for key: %s", schema.PrimaryKey[0])
 		}
 		t.usesRowID = false
 	}
